@@ -2,7 +2,7 @@
 """Markdown tables of the seeded-change matrices (seeded/<tag>matrix.json + seeded/<id>/meta.json) for DESIGN.md section 9."""
 import json, os, sys
 OUT = "/verif/seeded"
-for tag, title in (("", "Round 1"), ("r2", "Round 2"), ("r3", "Round 3 (refactoring with a slip)"), ("r4", "Round 4 (optimisation / feature addition / modernisation)"), ("r5", "Round 5 (classic Python pitfalls)"), ("r6", "Round 6 (well-meant fixes after a misread specification)"), ("r7", "Round 7 (non-default options, unusual-but-legal API usage, error paths)"), ("r8", "Round 8 (near-equivalent API calls, environment assumptions)"), ("r9", "Round 9 (the bug a code review misses)"), ("r10", "Round 10 (contract drift between two places; 12 properties)")):
+for tag, title in (("", "Round 1"), ("r2", "Round 2"), ("r3", "Round 3 (refactoring with a slip)"), ("r4", "Round 4 (optimisation / feature addition / modernisation)"), ("r5", "Round 5 (classic Python pitfalls)"), ("r6", "Round 6 (well-meant fixes after a misread specification)"), ("r7", "Round 7 (non-default options, unusual-but-legal API usage, error paths)"), ("r8", "Round 8 (near-equivalent API calls, environment assumptions)"), ("r9", "Round 9 (the bug a code review misses)"), ("r10", "Round 10 (contract drift between two places; 12 properties)"), ("r11", "Round 11 (contract drift; the other 8 properties)")):
     mp = os.path.join(OUT, tag + "matrix.json")
     if not os.path.exists(mp):
         continue
